@@ -101,6 +101,7 @@ type nodeState struct {
 }
 
 type nodeView struct {
+	voters  map[uint64]struct{}
 	ok      bool
 	lead    uint64
 	term    uint64
@@ -182,6 +183,8 @@ type RunResult struct {
 	Abandoned  int
 	FaultsAny  bool
 	NetFaults  bool
+	Voters     map[int][]uint64 // voting members every serving node reports at the end
+	PanicClass string           // class of the command a panicking handler was executing
 	// C14
 	RefReplies []rd.Value
 	RefDump    []string
@@ -227,6 +230,8 @@ type Sim struct {
 	issued          int
 	scriptLose      string
 	lastLeader      int
+	mgmtClass       string
+	mgmtStep        int
 	dir             *directed
 	skipFinale      bool
 	rconfAdd        bool
@@ -659,6 +664,12 @@ func (s *Sim) collect() {
 		// (what a process handed to its transport before it was killed may
 		// still arrive: Send stops queueing the instant the process is dead)
 		for _, m := range out {
+			if m.To < 1 || m.To > uint64(len(s.nodes)) {
+				// addressed to a member that exists only in the configuration
+				s.fault("msg-drop")
+				s.fault("msg-drop-no-such-node")
+				continue
+			}
 			l := s.getLink(m.From, m.To)
 			l.q = append(l.q, qmsg{m: m, from: inc, emitStep: s.step, emitAt: now})
 			s.trace("emit %s", msgString(m))
@@ -761,7 +772,7 @@ func (s *Sim) refreshStatus() {
 			vec = append(vec, "x")
 			continue
 		}
-		ns.view = nodeView{ok: true, lead: st.Lead, term: st.Term, commit: st.Commit, applied: rn.VerifAppliedIndex(), state: st.RaftState}
+		ns.view = nodeView{voters: st.Config.Voters.IDs(), ok: true, lead: st.Lead, term: st.Term, commit: st.Commit, applied: rn.VerifAppliedIndex(), state: st.RaftState}
 		if si := rn.VerifSnapshotIndex(); si != ns.lastSnapIdx {
 			if si > ns.lastSnapIdx && ns.lastAppliedInit {
 				// the node took (or received) a snapshot during this step
@@ -1018,6 +1029,10 @@ func (s *Sim) deathSig() string {
 		return p + "/data-race/one-command-at-a-time"
 	case s.listSeen && s.snapshotDue():
 		return p + "/node-death/snapshot-of-list"
+	case s.mgmtClass != "" && s.step-s.mgmtStep < 80 && !strings.HasPrefix(s.mgmtClass, "rconf-add-existing") && !s.rconfDel && !s.rconfAdd:
+		// a management command was issued a moment ago (the ones that go
+		// through the log are executed by every replica a few steps later)
+		return p + "/node-death/" + s.mgmtClass
 	case s.rconfDel && s.rconfDelHighest:
 		return p + "/node-death/after-rconf-delete-highest-id"
 	case s.rconfDel:
@@ -1051,7 +1066,16 @@ func (s *Sim) snapshotDue() bool {
 	if s.k.SnapCount == 0 || s.k.SnapCount >= 10000 {
 		return false
 	}
-	return uint64(s.issued+8) > s.k.SnapCount
+	if uint64(s.issued+8) > s.k.SnapCount {
+		return true
+	}
+	// entries also come from elections and configuration changes
+	for _, ns := range s.nodes {
+		if ns.view.ok && ns.view.commit+8 > ns.lastSnapIdx+s.k.SnapCount {
+			return true
+		}
+	}
+	return false
 }
 
 func (s *Sim) apply(e event) {
@@ -1192,7 +1216,23 @@ func (s *Sim) openConn(c *clientState, node int) {
 	inc.conns = append(inc.conns, conn)
 	c.conn, c.node, c.rx = conn, node, nil
 	go func() {
-		defer s.recoverNode(inc, "connection handler")
+		defer func() {
+			if r := recover(); r != nil {
+				if inc.dead || inc.stopped {
+					return // a killed process cannot fail
+				}
+				s.mu.Lock()
+				what := "connection handler"
+				if op := c.cur; op != nil && c.conn == conn {
+					what += " executing " + truncate(cmdString(op.Args), 80)
+					if mi := mgmtShape(op.Args, len(s.nodes)); mi.is && s.res.PanicClass == "" {
+						s.res.PanicClass = mi.class
+					}
+				}
+				s.res.Panics = append(s.res.Panics, fmt.Sprintf("n%d %s: panic: %v", inc.node.id, what, r))
+				s.mu.Unlock()
+			}
+		}()
 		inc.vn.Serve(inc.ctx, conn)
 	}()
 }
@@ -1259,27 +1299,24 @@ func (s *Sim) noteCommand(args []B) {
 	switch name {
 	case "rpush", "lpush", "lpushx", "rpushx", "lmove", "linsert":
 		s.listSeen = true
-	case "rconf":
-		// a membership change written into a client program
-		if len(args) >= 3 {
-			id, _ := strconv.Atoi(string(args[2]))
-			switch strings.ToLower(string(args[1])) {
-			case "delete":
-				s.rconfDel = true
-				s.fault("rconf-delete")
-				s.rconfDelHighest = id == len(s.nodes)
-				if id >= 1 && id <= len(s.nodes) {
-					s.nodes[id-1].removed = true
-				}
-			case "add":
-				if id == len(s.nodes)+1 && len(args) >= 4 {
-					s.rconfAdd = true
-					s.fault("rconf-add")
-					s.nodes = append(s.nodes, &nodeState{id: id})
-					s.res.Nodes = s.nodes
-					s.joiner = id
-				}
-			}
+	}
+	if mi := mgmtShape(args, len(s.nodes)); mi.is {
+		s.fault("mgmt-" + mi.class)
+		s.mgmtClass, s.mgmtStep = mi.class, s.step
+		// a well-formed membership change written into a client program
+		id := int(mi.id)
+		switch {
+		case mi.changes == "delete" && mi.id >= 1 && mi.id <= uint64(len(s.nodes)):
+			s.rconfDel = true
+			s.fault("rconf-delete")
+			s.rconfDelHighest = id == len(s.nodes)
+			s.nodes[id-1].removed = true
+		case mi.changes == "add" && id == len(s.nodes)+1 && mi.id < 1<<20:
+			s.rconfAdd = true
+			s.fault("rconf-add")
+			s.nodes = append(s.nodes, &nodeState{id: id})
+			s.res.Nodes = s.nodes
+			s.joiner = id
 		}
 	}
 	if s.prop == "C14" {
